@@ -664,8 +664,10 @@ def _malformed(c):
         return "max_number"
     if k == "banded":
         lo, hi = min(c["band"]), max(c["band"])
+        if n == 0 or m == 0:
+            return "empty-sequence"      # nothing a band could overlap: rejection (ValueError) or an empty alignment
         # (as documented for the un-swapped orientation; the swap negates the band and exchanges n, m)
-        if n + hi <= 0 or lo >= m or (n == 0 and m == 0):
+        if n + hi <= 0 or lo >= m:
             return "band-no-overlap"
         return None
     si, sj = c["seed"]
@@ -910,7 +912,7 @@ def _long(rng, mem=False):
 
 def cases(rng, tier):
     quick = tier == "quick"
-    for k in range(900 if quick else 9000):
+    for k in range(750 if quick else 9000):
         yield _case(rng, 8 if (quick or k % 5) else 14, allow_empty=(k % 12 == 0))
     for k in range(60 if quick else 600):
         yield _case(rng, 6, malformed=True)
